@@ -43,8 +43,7 @@ for p in opt("--plugins"):
     if "spec" in what and (ns + ".spec") not in s:
         s = re.sub(r"def specChain : List Ops.SpecFn := \[", "def specChain : List Ops.SpecFn := [%s.spec, " % ns, s, 1)
     if "step" in what and (ns + ".step") not in s:
-        s = re.sub(r"def stepChain : List \(St → Nat → List String → Option St\) := \[\]", "def stepChain : List (St → Nat → List String → Option St) := [%s.step]" % ns, s, 1) if "stepChain : List (St → Nat → List String → Option St) := []" in s else \
-            re.sub(r"(def stepChain : List \(St → Nat → List String → Option St\) := \[)", r"\g<1>%s.step, " % ns, s, 1)
+        s = s.replace("  [([\"pregen\"], PPregen.step),", "  [([\"%s\"], %s.step), ([\"pregen\"], PPregen.step)," % (name, ns), 1)
 open(pl, "w").write(s)
 mm = os.path.join(V, "lean/MeddlyModel.lean"); s = open(mm).read()
 for m in opt("--models"):
